@@ -333,7 +333,7 @@ impl<'a> Gen<'a> {
             10 => (*self.r.pick(&["6", "8", "10", "11", "20", "26", "28", "50", "51", "58", "59", "73", "89", "98", "99", "108", "255", "4:3", "1:2", "65535"])).to_string(),
             _ => {
                 if malformed_ok {
-                    (*self.r.pick(&["38;5", "38;2;1;2", "38", "48", "38:5", "38:2:1:2", "48;7", "38;5;300", "38:2:1:2:3:4:5:6", "48;2;1;2;3000"])).to_string()
+                    (*self.r.pick(&["38;5", "38;2;1;2", "38", "48", "38:5", "38:2:1:2", "48;7", "38;5;300", "38:2:1:2:3:4:5:6", "48;2;1;2;3000", "38;5:1;7", "38;2:9;1;3;4", "48;5:2;4", "38;7;1", "38;4;9", "48;1:2;3", "38;5:0;2;1", "48;2:0;4;5;6;7"])).to_string()
                 } else {
                     "1".into()
                 }
@@ -346,7 +346,7 @@ impl<'a> Gen<'a> {
         let n = self.r.range(1, 4);
         let mut ps: Vec<String> = Vec::new();
         for _ in 0..n {
-            let mal = self.r.chance(1, 17);
+            let mal = self.r.chance(1, 9);
             ps.push(self.sgr_param(mal));
         }
         format!("{}{}m", csi, ps.join(";"))
